@@ -19,6 +19,7 @@ type thread struct {
 	resume   chan struct{}
 	finished bool
 	waitGen  int64 // blocked until progress > waitGen ; -1 = runnable
+	waitQ    bool  // blocked until the rest of the system is quiescent
 	lastPt   string
 	panicVal interface{}
 	stack    string
@@ -153,6 +154,18 @@ func (s *Sched) Run(maxSteps int) (res Result) {
 			return
 		}
 		if len(enabled) == 0 {
+			// threads waiting for quiescence get their turn now (all of them: they race under the schedule)
+			woke := false
+			for _, t := range s.threads {
+				if !t.finished && t.waitQ {
+					t.waitQ = false
+					t.waitGen = -1
+					woke = true
+				}
+			}
+			if woke {
+				continue
+			}
 			if s.Grace > 0 {
 				if !inGrace {
 					inGrace = true
@@ -254,6 +267,25 @@ func BlockYield() {
 		return
 	}
 	time.Sleep(20 * time.Microsecond)
+}
+
+// BlockUntilQuiet parks the caller until every other thread is blocked or finished (nothing can move any more).
+func BlockUntilQuiet() {
+	s := active.Load()
+	if s == nil {
+		time.Sleep(2 * time.Millisecond)
+		return
+	}
+	t := s.cur
+	t.waitQ = true
+	t.waitGen = 1 << 62
+	s.ring[s.ringPos%len(s.ring)] = traceEnt{t.id, "await-quiet"}
+	s.ringPos++
+	s.yielded <- t
+	<-t.resume
+	if s.killing {
+		panic(killSentinel{})
+	}
 }
 
 // NoYield runs f without offering scheduling points (harness bookkeeping on a virtual thread).
